@@ -809,7 +809,10 @@ def _main(mod, pid, args, shim, t0):
         if msg:
             print("HARNESS-ERROR property=%s %s" % (pid, msg))
             return 2
+    if found:
+        return 1        # (a tree that fails almost every case ends the search early: few
+        #                  cases were generated, but the violations stand)
     if total.evals == 0 or ndist < 2:
         print("HARNESS-ERROR property=%s generator produced no non-trivial cases" % pid)
         return 2
-    return 1 if found else 0
+    return 0
